@@ -19,28 +19,29 @@ import (
 // written from RFC 6749 / RFC 7636 / OIDC Core, not from the authservice sources.
 
 type IdPKnobs struct {
-	ExpiresIn          int    `json:"expires_in"`           // access-token lifetime in s
-	OmitExpiresIn      bool   `json:"omit_expires_in"`      // do not send expires_in at login
-	IDTokenTTL         int    `json:"id_ttl"`               // ID-token lifetime in s
-	Refresh            string `json:"refresh"`              // none | static | rotate
-	AudArray           bool   `json:"aud_array"`            // aud as array (with a second audience)
-	TokenType          string `json:"token_type"`           // capitalisation of Bearer
-	Extra              bool   `json:"extra"`                // extra response members
-	Big                bool   `json:"big,omitempty"`        // large answers: an ID token with some hundred group claims, a long extra member
-	RefreshNonce       string `json:"refresh_nonce"`        // omit | echo | empty
-	RefreshOmitID      bool   `json:"refresh_omit_id"`      // refresh answers omit id_token
-	RefreshOmitAccess  bool   `json:"refresh_omit_access"`  // refresh answers omit access_token
-	RefreshOmitExpires bool   `json:"refresh_omit_expires"` // refresh answers omit expires_in
-	RefreshOmitRT      bool   `json:"refresh_omit_rt"`      // refresh answers omit refresh_token (static only)
-	Alg                string `json:"alg"`                  // ES256 | RS256
-	JWKSAlg            bool   `json:"jwks_alg"`             // publish alg in JWKS
-	JWKSKid            bool   `json:"jwks_kid"`             // publish kid in JWKS
-	LatencyUS          int    `json:"latency_us"`           // token endpoint latency on the fake clock
-	RefreshDeny        bool   `json:"refresh_deny"`         // refresh grants are answered invalid_grant
-	IDNoExp            bool   `json:"id_no_exp,omitempty"`  // ID tokens carry no exp claim (unusual provider)
-	DiscDoc            string `json:"disc_doc,omitempty"`   // discovery document variant: "" | pkce-plain-only | pkce-both | rich | minimal
-	Byz                string `json:"byz"`                  // byzantine production for id_token ("" = honest)
-	ByzOn              string `json:"byz_on"`               // login | refresh | both
+	ExpiresIn          int    `json:"expires_in"`                   // access-token lifetime in s
+	OmitExpiresIn      bool   `json:"omit_expires_in"`              // do not send expires_in at login
+	IDTokenTTL         int    `json:"id_ttl"`                       // ID-token lifetime in s
+	Refresh            string `json:"refresh"`                      // none | static | rotate
+	AudArray           bool   `json:"aud_array"`                    // aud as array (with a second audience)
+	TokenType          string `json:"token_type"`                   // capitalisation of Bearer
+	Extra              bool   `json:"extra"`                        // extra response members
+	Big                bool   `json:"big,omitempty"`                // large answers: an ID token with some hundred group claims, a long extra member
+	JWKSCacheControl   string `json:"jwks_cache_control,omitempty"` // Cache-Control header of the key endpoint's answers
+	RefreshNonce       string `json:"refresh_nonce"`                // omit | echo | empty
+	RefreshOmitID      bool   `json:"refresh_omit_id"`              // refresh answers omit id_token
+	RefreshOmitAccess  bool   `json:"refresh_omit_access"`          // refresh answers omit access_token
+	RefreshOmitExpires bool   `json:"refresh_omit_expires"`         // refresh answers omit expires_in
+	RefreshOmitRT      bool   `json:"refresh_omit_rt"`              // refresh answers omit refresh_token (static only)
+	Alg                string `json:"alg"`                          // ES256 | RS256
+	JWKSAlg            bool   `json:"jwks_alg"`                     // publish alg in JWKS
+	JWKSKid            bool   `json:"jwks_kid"`                     // publish kid in JWKS
+	LatencyUS          int    `json:"latency_us"`                   // token endpoint latency on the fake clock
+	RefreshDeny        bool   `json:"refresh_deny"`                 // refresh grants are answered invalid_grant
+	IDNoExp            bool   `json:"id_no_exp,omitempty"`          // ID tokens carry no exp claim (unusual provider)
+	DiscDoc            string `json:"disc_doc,omitempty"`           // discovery document variant: "" | pkce-plain-only | pkce-both | rich | minimal
+	Byz                string `json:"byz"`                          // byzantine production for id_token ("" = honest)
+	ByzOn              string `json:"byz_on"`                       // login | refresh | both
 }
 
 func DefaultKnobs() IdPKnobs {
@@ -141,6 +142,8 @@ type IdP struct {
 	// the request had to carry is decided by the state of the world at that instant (C19: the Secret's value as of
 	// the last completed reconcile), not by the state when the provider gets round to processing it.
 	OnArrival func(tr *TokenReq)
+	// LastRotation: instant of the latest signing-key change (Rotate).
+	LastRotation time.Time
 	// LeanDiscFail: in race builds (no fault bookkeeping, which would synchronise the tasks) the n-th discovery
 	// requests listed here are answered 500. Plain counter, touched only by norace code.
 	LeanDiscFail []int
@@ -228,6 +231,9 @@ func (p *IdP) Handler() http.Handler {
 			return
 		}
 		w.Header().Set("Content-Type", "application/json")
+		if cc := p.Knobs.JWKSCacheControl; cc != "" {
+			w.Header().Set("Cache-Control", cc)
+		}
 		_, _ = io.WriteString(w, body)
 	})
 	mux.HandleFunc(p.Path+"/.well-known/openid-configuration", func(w http.ResponseWriter, r *http.Request) {
